@@ -4,7 +4,9 @@ ENGINES['h_planners'] = ('C++ harness: all 46 geometric/multilevel planner varia
 reg('C01', engine='h_planners',
     rule='one case = (planner, generated world); world = space kind, 0-10 fat obstacles (>= 4 resolution lengths thick), '
          'optional heading slab, start/goal sets (every third world: invalid / out-of-bounds / multiple starts and goals, '
-         'GoalStates, non-sampleable goal region), threshold, range, resolution, segment factor; non-trivial = a solution '
+         'GoalStates, non-sampleable goal region), threshold, range, resolution, segment factor; of every four worlds one is cut '
+         'short (5-300 evaluations), one is cluttered with 20-45 small obstacles and one has a narrow passage (wall with a slit / '
+         'window); a direction block adds rewiring planners on cluttered tight-turn Dubins worlds; non-trivial = a solution '
          'path with >= 3 states in a world with >= 1 obstacle was examined by the oracle; distinct = (world seed, planner, case seed)',
     floors={'quick': {'solutions_checked': 200, 'dense_samples': 200000, 'strict_rechecks': 1200},
             'thorough': {'solutions_checked': 1500}},
